@@ -156,3 +156,64 @@ def slant_tau(path, sigmas, density, powers, cutoff=10.0):
             for k in range(len(path[l])):
                 tau[l] = tau[l] + sig[l + k] * (density[l + k] ** p) * path[l][k]
     return tau, borderline
+
+
+# ---------------------------------------------------------------------------
+# C02 thermal emission
+
+def planck_wn(wn, T):
+    """pi * B_lambda(T) in W m-2 um-1 at wavenumber wn (cm-1): the surface flux
+    density of a blackbody, lambda = 1e-2/wn metres."""
+    wn = np.asarray(wn, dtype=float)
+    lam = 1e-2 / wn
+    x = H_PLANCK * C_LIGHT / (lam * K_BOLTZ * T)
+    with np.errstate(all='ignore'):
+        return math.pi * 2.0 * H_PLANCK * C_LIGHT ** 2 / lam ** 5 / np.expm1(x) * 1e-6
+
+
+def gauss_legendre_01(n):
+    """nodes/weights of n-point Gauss-Legendre quadrature mapped from [-1,1] to [0,1]"""
+    x, w = np.polynomial.legendre.leggauss(n)
+    return [(xi + 1.0) / 2.0 for xi in x], [wi / 2.0 for wi in w]
+
+
+def emission_reference(wn, T, dtau_layer, ngauss, clamp=10.0):
+    """Plane-parallel layered thermal integral.
+
+    dtau_layer[l, wn]: vertical optical depth of layer l (l=0 at the surface).
+    For each emission-angle cosine mu_i:
+      I_i = B(T_0)/pi e^{-tau_surf/mu_i} + sum_l B(T_l)/pi (f(tau_{>l}) - f(tau_{>=l}))
+    with f(x) = e^{-x/mu_i}, except that the licensed saturation cut-off sets f(x)=0
+    when min over wavenumber of x >= clamp.
+    Returns (flux[wn] = 2 pi sum_i I_i mu_i w_i, I[i, wn], layer transmittance difference
+    tau_out[l, wn] (mu=1), borderline flag)."""
+    n, nw = dtau_layer.shape
+    mus, ws = gauss_legendre_01(ngauss)
+    above = np.zeros((n + 1, nw))          # above[l] = sum_{k>=l} dtau ; above[n] = 0
+    for l in range(n - 1, -1, -1):
+        above[l] = above[l + 1] + dtau_layer[l]
+    borderline = False
+    for l in range(n + 1):
+        m = above[l].min()
+        if abs(m - clamp) <= 1e-9 * clamp:
+            borderline = True
+
+    def f(x, mu):
+        if x.min() >= clamp:
+            return np.zeros(nw)
+        with np.errstate(all='ignore'):
+            return np.exp(-x / mu)
+    I = np.zeros((ngauss, nw))
+    for i, mu in enumerate(mus):
+        with np.errstate(all='ignore'):
+            acc = planck_wn(wn, T[0]) / math.pi * np.exp(-above[0] / mu)
+        for l in range(n):
+            acc = acc + planck_wn(wn, T[l]) / math.pi * (f(above[l + 1], mu) - f(above[l], mu))
+        I[i] = acc
+    flux = np.zeros(nw)
+    for i in range(ngauss):
+        flux = flux + 2.0 * math.pi * I[i] * mus[i] * ws[i]
+    tau_out = np.zeros((n, nw))
+    for l in range(n):
+        tau_out[l] = f(above[l + 1], 1.0) - f(above[l], 1.0)
+    return flux, I, tau_out, borderline
